@@ -170,6 +170,9 @@ func toTree(v reflect.Value) any {
 		for it.Next() {
 			out = append(out, map[string]any{"k": toTree(it.Key()), "v": toTree(it.Value())})
 		}
+		// print order only (so that a seed gives the same trace text every run); the specification sorts by key itself
+		keyText := func(e any) string { b, _ := json.Marshal(e.(map[string]any)["k"]); return string(b) }
+		sort.Slice(out, func(i, j int) bool { return keyText(out[i]) < keyText(out[j]) })
 		return out
 	}
 	panic("toTree: unsupported kind " + v.Kind().String() + " of " + v.Type().String())
